@@ -3726,4 +3726,84 @@ theorem pending_survives_foreign_ack (w : World) (s d : ChainId) (q : Nat) (S D 
   · refine ⟨p', ?_, h1, h2⟩
     rw [hother S hS]; exact hm
 
+/-! ### module-initiated calls WITHOUT hooks (aggregate conversions of a programmable token) -/
+
+/-- frames that announce no packet leave the bridge bookkeeping alone -/
+theorem batchEvm_nosend (cfg : Cfg) (self : ChainId) (seq0 : ChainId → Nat) (strict : Bool) :
+    ∀ (legs : List Leg) (e e1 : Evm) (logs : List SentLog), (∀ l ∈ legs, l.isSend = false) →
+      batchEvm cfg self seq0 strict e legs = some (e1, logs) → BridgeLe e e1
+  | [], e, e1, logs, _, h => by
+    simp only [batchEvm] at h
+    have := (Prod.mk.inj (Option.some.inj h)).1.symm; subst this
+    exact ⟨rfl, rfl, rfl, rfl, rfl, rfl, fun _ => Nat.le_refl _⟩
+  | .approve t n :: ls, e, e1, logs, hno, h => by
+    simp only [batchEvm] at h
+    have ih := batchEvm_nosend cfg self seq0 strict ls _ e1 logs (fun l hl => hno l (List.mem_cons_of_mem _ hl)) h
+    exact ⟨ih.out, ih.bindAmt, ih.credited, ih.refunded, ih.feePaid, ih.fee, ih.bal⟩
+  | .fakelog q :: ls, e, e1, logs, hno, h => by
+    simp only [batchEvm] at h
+    split at h
+    · cases h
+    · rename_i e2 ps hb
+      have he : e1 = e2 := (Prod.mk.inj (Option.some.inj h)).1.symm
+      subst he
+      exact batchEvm_nosend cfg self seq0 strict ls e e1 ps (fun l hl => hno l (List.mem_cons_of_mem _ hl)) hb
+  | .send a :: ls, e, e1, logs, hno, _ => by
+    have := hno (.send a) (List.mem_cons_self ..)
+    simp [Leg.isSend] at this
+
+/-- **Conservation holds across a hook-less module call IF the call announces no packet.** The hypothesis `hno` — the
+token's code emits no `PacketSent` inside `transfer` / `mint` / `burn` — is exactly what the code does NOT enforce: the
+aggregate keeper commits whatever the token contract did and runs no post-transaction hook (see the witness below and
+the standing finding `C03:value-locked-without-commitment:aggregate-conversion:*`). All theorems about `run` are about
+histories whose steps are the `Step`s of the model; a conversion of a programmable token is not one of them. -/
+theorem conservation_if_module_calls_emit_no_send (w : World) (i : ChainId) (legs : List Leg) (c' : Chain)
+    (h : Inv w) (hno : ∀ l ∈ legs, l.isSend = false)
+    (hc : moduleCallNoHooks (w.cfg i) i (w.chains i) legs = some c') : Inv (w.set i c') := by
+  unfold moduleCallNoHooks at hc
+  split at hc
+  · cases hc
+  · rename_i e1 logs hb
+    have := (Option.some.inj hc).symm; subst this
+    have hle := batchEvm_nosend _ _ _ _ legs _ e1 logs hno hb
+    exact inv_frame w i _ h.1 h.2 rfl rfl rfl rfl hle.out hle.bindAmt
+
+/-- … and without the hypothesis it fails: the token's `transfer` bridges 300 of a token it holds (one `crossChainCall`
+frame): escrow and `outTokens` grow by 300, no commitment is stored, the counter does not move — not conserved. -/
+def wTok : World := run true w3 [.transfer 0 1 0 acForwarder 3000]
+
+theorem module_call_send_values :
+    ((moduleCallNoHooks cfgA3 0 (wTok.chains 0) [.approve 1 100000, leg 1 300 0]).map
+      fun c => (c.evm.out 1 1, c.evm.bal 1 acEndpoint, c.commits.length, c.nextSeq 1)) = some (300, 300, 0, 1) := by decide
+
+theorem module_call_send_breaks_conservation :
+    ∃ c', moduleCallNoHooks (wTok.cfg 0) 0 (wTok.chains 0) [.approve 1 100000, leg 1 300 0] = some c' ∧
+      ¬ Conserved (wTok.set 0 c') := by
+  cases hc : moduleCallNoHooks (wTok.cfg 0) 0 (wTok.chains 0) [.approve 1 100000, leg 1 300 0] with
+  | none =>
+    have hs : (moduleCallNoHooks (wTok.cfg 0) 0 (wTok.chains 0) [.approve 1 100000, leg 1 300 0]).isSome = true := by decide
+    rw [hc] at hs; cases hs
+  | some c' =>
+    refine ⟨c', rfl, ?_⟩
+    intro h
+    have h1 := h 0 1 1 (by decide)
+    unfold eqn at h1
+    rw [set_cfg] at h1
+    have htr : (wTok.cfg 1).trace 0 1 = some 2 := by decide
+    have hsc : (wTok.cfg 1).scale 2 0 = 0 := by decide
+    rw [htr] at h1
+    simp only [hsc] at h1
+    have hv : (c'.evm.out 1 1, c'.commits, (wTok.chains 1).evm.bindAmt 2 0, (wTok.chains 1).commits) = (300, [], 0, []) := by
+      have : (some c').map (fun c => (c.evm.out 1 1, c.commits, (wTok.chains 1).evm.bindAmt 2 0, (wTok.chains 1).commits)) = some (300, [], 0, []) := by
+        rw [← hc]; decide
+      exact Option.some.inj this
+    have e1 : c'.evm.out 1 1 = 300 := congrArg (·.1) hv
+    have e2 : c'.commits = [] := congrArg (·.2.1) hv
+    have e3 : (wTok.chains 1).evm.bindAmt 2 0 = 0 := congrArg (·.2.2.1) hv
+    have e4 : (wTok.chains 1).commits = [] := congrArg (·.2.2.2) hv
+    have s0 : ((wTok.set 0 c').chains 0) = c' := set_chains_eq _ _ _
+    have s1 : ((wTok.set 0 c').chains 1) = wTok.chains 1 := set_chains_ne _ _ (by decide)
+    rw [s0, s1, e1, e2, e3, e4] at h1
+    simp [flight] at h1
+
 end TM.World
